@@ -404,7 +404,10 @@ def _loops_to_comprehensions(stmts):
         if isinstance(st, ast.Assign) and len(st.targets) == 1 and isinstance(st.targets[0], ast.Name) and isinstance(nxt, ast.For):
             xs = st.targets[0].id
             kind = B._empty_kind(st.value)
-            ms = B._loop_mutations(nxt) if kind in ("list", "set", "dict", "counter") else None
+            # a rewrite, not a comparison form: the loop body must have no effect besides the collection (a refusal `if ..: raise`
+            # carries no path condition for the builders, but dropping it here would drop the refusal from the program)
+            effectful = any(isinstance(x, (ast.Raise, ast.Assert, ast.Return, ast.Break, ast.Yield, ast.YieldFrom, ast.Await, ast.Delete, ast.Global, ast.Nonlocal)) for x in ast.walk(nxt))
+            ms = B._loop_mutations(nxt) if kind in ("list", "set", "dict", "counter") and not effectful else None
             if ms is not None and len(ms) == 1 and ms[0][0] == kind and ms[0][1] == xs:
                 k_, nm_, payload, cs = ms[0]
                 comp = B._comp(kind, payload, nxt.target, nxt.iter, cs)
